@@ -14,6 +14,7 @@ from ..describe import describe_path, Inert0
 from ..pathterms import PathT
 from ..terms import valida
 from .c09 import IMPORTS
+from .c11 import pathy
 
 PROP = "C12"
 THEOREMS = ["C12_refuses_or_is_faithful", "C12_roundtrip_same_selection", "C12_roundtrip_pure", "C12_refuses_what_it_cannot_represent",
@@ -39,6 +40,13 @@ def run(tier, seed, model_ok, spec_ok, replay=None):
     for i in range(n):
         doc = g.document(4, 4)
         pt = pg.path(doc, max_len=3, mods_p=0.2)      # with modifiers: part specs must refuse, to_spec must carry them
+        for l in path_leaves(pt):
+            # literal mappings / lists whose keys look like path specs or already hold the escape code, as arguments of the
+            # conditions inside parts: written escaped, read back as the literal
+            if l.args and l.method in ("equal_to", "not_equal_to", "in_", "not_in", "eq") and "DataType" not in l.cls \
+                    and "Length" not in l.cls and g.r.random() < 0.12:
+                lit = pathy(g, 2)
+                l.args[0] = [lit, 1] if l.method in ("in_", "not_in") else lit
         if g.r.random() < 0.04:
             pt.has_src, pt.src = True, g.r.choice([{"a": 1}, [1, 2], {}])
         # also: paths that come from specs (equality must then hold)
